@@ -1,7 +1,129 @@
-(* C10 -- placeholder until the lemmas land *)
-From Tola Require Import Py.Base Model.Fragment Model.Scaffold Model.Namer Model.Remap.
+(* C10 -- Chromosome, unloc and haplotig names are unique and ranked by size.
+   Only statements, each closed by [exact] of a lemma from Proofs/Naming.v (and
+   Proofs/NaturalKey.v for the output order).  Proved here: the renaming /
+   ranking / numbering mechanics for every input; name uniqueness across a
+   whole run and the multi-haplotype grouping are decided by the
+   correspondence + oracle only (see DESIGN.md). *)
+From Tola Require Import Py.Base Py.Dec Py.Sort Model.Fragment Model.Scaffold Model.NaturalKey
+  Model.Namer Model.Remap Proofs.Naming Proofs.NaturalKey.
+From Coq Require Import Permutation Sorted.
 
-Lemma C10_multi_chr_list_example :
-  multi_chr_list (s "SUPER_9") 2 = [s "SUPER_9A"; s "SUPER_9B"] /\ multi_chr_list (s "SUPER_9") 1 = [s "SUPER_9"].
-Proof. vm_compute. split; reflexivity. Qed.
-Print Assumptions C10_multi_chr_list_example.
+(* rename_by_size (haplotigs after all cuts, unlocs per Pretext scaffold): the
+   same names in the same order, objects permuted so that lengths are
+   non-increasing along the names, ties in creation order *)
+Theorem C10_rename_by_size_spec : forall (A : Type) (ids : list A) (name_of : A -> str) (length_of : A -> Z),
+  let r := rename_by_size ids name_of length_of in
+  map snd r = map name_of ids
+  /\ Permutation (map fst r) ids
+  /\ StronglySorted (fun a b => length_of a >= length_of b) (map fst r)
+  /\ (forall z, filter (fun a => length_of a =? z) (map fst r) = filter (fun a => length_of a =? z) ids).
+Proof. exact rename_by_size_spec. Qed.
+Print Assumptions C10_rename_by_size_spec.
+
+(* H_1, H_2, ... and <chr>_unloc_1, _2, ... are handed out without holes *)
+Theorem C10_haplotig_names_sequential : forall nm id ft st nm' l,
+  label_scaffold nm id ft st = Ok (nm', l) -> mem_str (s "FalseDuplicate") ft = false ->
+  mem_str (s "Haplotig") ft = true ->
+  nm_hap_n nm' = nm_hap_n nm + 1 /\ lb_name l = s "H_" ++ str_of_Z (nm_hap_n nm + 1)
+  /\ nm_hap_scaffolds nm' = nm_hap_scaffolds nm ++ [id].
+Proof. exact haplotig_names_sequential. Qed.
+Print Assumptions C10_haplotig_names_sequential.
+
+Theorem C10_unloc_names_sequential : forall nm id ft st nm' l n0,
+  label_scaffold nm id ft st = Ok (nm', l) -> mem_str (s "FalseDuplicate") ft = false ->
+  mem_str (s "Haplotig") ft = false -> mem_str (s "Unloc") ft = true -> nm_cur_name nm = Some n0 ->
+  nm_unloc_n nm' = nm_unloc_n nm + 1 /\ lb_name l = n0 ++ s "_unloc_" ++ str_of_Z (nm_unloc_n nm + 1)
+  /\ nm_unloc_scaffolds nm' = nm_unloc_scaffolds nm ++ [id].
+Proof. exact unloc_names_sequential. Qed.
+Print Assumptions C10_unloc_names_sequential.
+
+Theorem C10_other_labels_keep_counters : forall nm id ft st nm' l,
+  label_scaffold nm id ft st = Ok (nm', l) ->
+  (mem_str (s "FalseDuplicate") ft = true \/ (mem_str (s "Haplotig") ft = false /\ mem_str (s "Unloc") ft = false)) ->
+  nm' = nm.
+Proof. exact other_labels_keep_counters. Qed.
+Print Assumptions C10_other_labels_keep_counters.
+
+(* chromosome groups are numbered 1..n in order of non-increasing length
+   (chromosome plus its unlocs), stable on ties *)
+Theorem C10_groups_sorted_desc : forall fused haps (groups : list chr_group),
+  StronglySorted (fun a b => group_length fused haps a >= group_length fused haps b)
+                 (sort_by_Z_desc (group_length fused haps) groups)
+  /\ Permutation (sort_by_Z_desc (group_length fused haps) groups) groups.
+Proof. exact groups_sorted_desc. Qed.
+Print Assumptions C10_groups_sorted_desc.
+
+Theorem C10_numbering : forall prefix fused haps (groups : list chr_group),
+  let sorted := sort_by_Z_desc (group_length fused haps) groups in
+  fst (fold_left (fun '(fs, n) g => (name_group prefix n fs g, n + 1)) sorted (fused, 1))
+  = fold_left (fun fs '(k, g) => name_group prefix (Z.of_nat k + 1) fs g)
+              (combine (seq 0 (length sorted)) sorted) fused.
+Proof. exact name_chromosomes_numbering. Qed.
+Print Assumptions C10_numbering.
+
+(* single haplotype: one group per run of equal Pretext scaffold name, never an
+   error, and naming changes names only, of the listed scaffolds only *)
+Theorem C10_single_hap_groups : forall fused h items st,
+  Forall (fun it => fst it = h) items -> items <> [] ->
+  Forall (fun it => exists sc o, nth_error fused (snd it) = Some sc /\ sc_orig sc = Some o /\ o <> []) items ->
+  foldM (build_groups_step fused [h] false) items (mkCg [new_group [h]] None None) = Ok st ->
+  Forall (fun g => exists o idxs, group_hap g h = [(o, idxs)] /\ idxs <> []) (cg_groups st)
+  /\ flat_map (fun g => flat_map snd (group_hap g h)) (cg_groups st) = map snd items
+  /\ existsb (group_bad [h]) (cg_groups st) = false.
+Proof. exact single_hap_groups. Qed.
+Print Assumptions C10_single_hap_groups.
+
+Theorem C10_name_chromosomes_single_total : forall prefix fused h items,
+  Forall (fun it => fst it = h) items ->
+  Forall (fun it => exists sc o, nth_error fused (snd it) = Some sc /\ sc_orig sc = Some o /\ o <> []) items ->
+  exists fused', name_chromosomes prefix fused items = Ok fused'
+    /\ length fused' = length fused
+    /\ (forall i sc, nth_error fused i = Some sc -> exists sc', nth_error fused' i = Some sc'
+          /\ sc_rows sc' = sc_rows sc /\ sc_tag sc' = sc_tag sc /\ sc_hap sc' = sc_hap sc
+          /\ sc_rank sc' = sc_rank sc /\ sc_orig sc' = sc_orig sc)
+    /\ (forall i, ~ In i (map snd items) -> nth_error fused' i = nth_error fused i).
+Proof. exact name_chromosomes_single_total. Qed.
+Print Assumptions C10_name_chromosomes_single_total.
+
+(* a member named <Pretext name><suffix> becomes <prefix><n><suffix>
+   (suffix = "" for the chromosome, "_unloc_k" for its unlocs) *)
+Theorem C10_name_group_effect : forall prefix n fs h o idxs i sc sfx,
+  NoDup idxs -> In i idxs -> nth_error fs i = Some sc ->
+  o <> [] -> sc_name sc = o ++ sfx ->
+  (forall j, (j < length sfx)%nat -> starts_with o (skipn j sfx) = false) ->
+  nth_error (name_group prefix n fs [(h, [(o, idxs)])]) i
+  = Some (with_name sc (prefix ++ str_of_Z n ++ sfx)).
+Proof. exact name_group_single_effect. Qed.
+Print Assumptions C10_name_group_effect.
+
+(* homologues grouped with one number get the suffixes A, B, C, ... *)
+Theorem C10_multi_chr_list : forall name n, length (multi_chr_list name n) = n
+  /\ (n = 1%nat -> multi_chr_list name n = [name])
+  /\ (n <> 1%nat -> forall k, (k < n)%nat ->
+        nth_error (multi_chr_list name n) k = Some (name ++ [ascii_of_N (65 + N.of_nat k)])).
+Proof. exact multi_chr_list_spec. Qed.
+Print Assumptions C10_multi_chr_list.
+
+(* output order: rank first, then numeric-aware name (C20), an autosome's
+   unlocs directly after it *)
+Theorem C10_output_order_total : forall (A : Type) (rank_of : A -> Z) (name_of : A -> str) (l : list A),
+  exists r, smart_sort rank_of name_of l = Ok r /\ Permutation r l.
+Proof. exact @smart_sort_total. Qed.
+Print Assumptions C10_output_order_total.
+
+Theorem C10_unloc_between : forall p n n' sfx m,
+  clean p -> clean sfx -> 0 <= n < n' -> 0 <= m ->
+  exists kc ku kn, natural_key (p ++ str_of_Z n ++ sfx) = Ok kc
+    /\ natural_key (p ++ str_of_Z n ++ sfx ++ s "_unloc_" ++ str_of_Z m) = Ok ku
+    /\ natural_key (p ++ str_of_Z n') = Ok kn /\ key_cmp kc ku = Lt /\ key_cmp ku kn = Lt.
+Proof. exact unloc_between. Qed.
+Print Assumptions C10_unloc_between.
+
+(* non-vacuity (Proofs/Naming.v, by computation): Scaffold_1 (100 bp),
+   Scaffold_2 (500 bp), Scaffold_2_unloc_1 (50 bp) become SUPER_2, SUPER_1,
+   SUPER_1_unloc_1 *)
+Theorem C10_example : name_chromosomes (s "SUPER_") ex_fused ex_items
+  = Ok (map (fun '(sc, n) => with_name sc n)
+            (combine ex_fused [s "SUPER_2"; s "SUPER_1"; s "SUPER_1_unloc_1"])).
+Proof. vm_compute. reflexivity. Qed.
+Print Assumptions C10_example.
